@@ -34,6 +34,7 @@ import (
 	"github.com/markusmobius/go-domdistiller/internal/domutil"
 	"github.com/markusmobius/go-domdistiller/internal/label"
 	"golang.org/x/net/html"
+	"golang.org/x/net/html/atom"
 )
 
 type Text struct {
@@ -111,6 +112,11 @@ func (t *Text) GenerateOutput(textOnly bool) string {
 		clonedRoot = parentClone
 	}
 
+	// A part of a table (cell, row, caption...) can not stand on its own: once
+	// the output is parsed again its tags are dropped and the texts of adjacent
+	// cells run together into words that are not in the page.
+	replaceOrphanTableParts(clonedRoot)
+
 	// Make sure links are absolute and IDs are gone.
 	domutil.MakeAllLinksAbsolute(clonedRoot, t.PageURL)
 	domutil.StripAttributes(clonedRoot)
@@ -127,6 +133,24 @@ func (t *Text) GenerateOutput(textOnly bool) string {
 	}
 
 	return dom.OuterHTML(clonedRoot)
+}
+
+// replaceOrphanTableParts turns the table parts of node's subtree that have
+// no <table> around them into <div>.
+func replaceOrphanTableParts(node *html.Node) {
+	if node.Type != html.ElementNode || node.Data == "table" {
+		return
+	}
+
+	switch node.Data {
+	case "caption", "thead", "tbody", "tfoot", "tr", "td", "th":
+		node.Data = "div"
+		node.DataAtom = atom.Div
+	}
+
+	for child := node.FirstChild; child != nil; child = child.NextSibling {
+		replaceOrphanTableParts(child)
+	}
 }
 
 func (t *Text) AddLabel(s string) {
